@@ -68,7 +68,7 @@ type driver struct {
 	seqs     map[string]int64 // family/leader -> last seq issued
 	keys     map[uint32]struct{}
 	pad      int
-	famHeavy bool // create-family and reopen are frequent, several families exist before the first reopen
+	famHeavy bool       // create-family and reopen are frequent, several families exist before the first reopen
 	crnd     *rand.Rand // stream of the commit convoys (convoy.go); the history's own stream is not consumed by them
 	gate     *gateIC
 	res      *childResult
